@@ -10,11 +10,11 @@ from contracts.lib import *  # noqa
 LEVEL = "other"
 MANIFEST_ENTRY = {
     "text": "ShareFile.renew_lease / add_or_renew_lease are executed on immutable share files holding 0..2 leases (thorough: 0..3), for both container schema versions (v1 cleartext, v2 hashed secrets), with every data byte, secret, owner and time symbolic: a matching renew secret changes exactly that lease's expiry field, and only forwards (never shortens); a non-matching secret raises IndexError (renew) and leaves the file byte-identical, or (add_or_renew) appends exactly one record and bumps the count, or raises NoSpace without change; a matching add never adds a duplicate. In v2 containers the bytes stored for the secrets are blake2b(secret) -- the serialiser's output depends on the cleartext secrets only through the hash. Leases surviving data writes and container growth is C23's 'leases-unchanged' contract.",
-    "note": "Bounded number of leases per share, hence level 'other'. blake2b is an uninterpreted function; timing_safe_compare <=> equality. Mutable-container lease slots (add/renew on MutableShareFile) are not under contract here except through C23's frame conditions.",
+    "note": "Bounded number of leases per share, hence level 'other'. blake2b is an uninterpreted function; timing_safe_compare <=> equality is a callee contract discharged on the real body under SHA-256 collision resistance (TimingSafeCompare). Mutable-container lease slots (add/renew on MutableShareFile) are not under contract here except through C23's frame conditions.",
     "technique": "contract-based deductive verification (pyvc VCs + z3 over the file-array model); number of leases bounded",
 }
 EXPLANATION = "Lease records as big-endian fields of the share file array; both schema versions."
-TRUSTED = ["file model", "struct codec", "blake2b uninterpreted", "timing_safe_compare <=> =="]
+TRUSTED = ["file model", "struct codec", "blake2b uninterpreted", "timing_safe_compare(a,b) <=> a == b is the callee contract used at call sites; it is discharged on the real body by TimingSafeCompare (contracts/tsc.py) under SHA-256 collision resistance (explicit cryptographic hypothesis, instantiated) and os.urandom(32) returning 32 bytes"]
 ASSUMPTIONS = ["termination not proved"]
 NOT_DECIDED = "MutableShareFile lease slot management; StorageServer.add_lease/renew_lease wrappers."
 F = "allmydata/storage/immutable.py"
@@ -243,4 +243,6 @@ def contracts(tier):
     from contracts.C23 import WriteShareData, ChangeContainerSize
     # which lease serializer (cleartext v1 / hashed v2) a re-opened immutable container uses is decided by ShareFile.__init__ (contract of C22)
     from contracts.C22 import ShareFileOpen
-    return cs + [WriteShareData(), ChangeContainerSize(), ShareFileOpen()]
+    # lease secrets are compared by hashutil.timing_safe_compare: its callee contract is discharged here
+    from contracts.tsc import TimingSafeCompare
+    return cs + [WriteShareData(), ChangeContainerSize(), ShareFileOpen(), TimingSafeCompare()]
